@@ -104,6 +104,11 @@ fn main() {
     let only_inter = args.rest.iter().any(|a| a == "--only-inter");
     let mut jobs = if only_inter { vec![] } else { standard_jobs(&args, &mut rng, &tables, &cols, null_loss) };
     if !only_inter { jobs.extend(name_jobs(&args)); }
+    if !only_inter {
+        // columns without a single value in a batch (every wire representation), before / after batches with values
+        jobs.extend(null_column_jobs(&args, null_loss, "c"));
+        jobs.extend(null_random_jobs(&args, &mut rng, &tables, &cols, null_loss));
+    }
     let thorough = args.thorough();
     let lat = std::thread::spawn(move || {
         let sizes = calibrate(5);
